@@ -66,6 +66,7 @@ type summary struct {
 	Failures    []failure         `json:"failures"`
 	WallS       float64           `json:"wall_s"`
 	Notes       map[string]any    `json:"notes"`
+	Partial     bool              `json:"partial,omitempty"`
 	TraceHashes map[string]string `json:"trace_hashes,omitempty"`
 }
 
@@ -157,9 +158,29 @@ func modeExplore(t *testing.T) {
 	states := map[string]struct{}{}
 	classes := map[string]bool{}
 	start := time.Now()
+	lastWrite := time.Now()
+	flush := func(final bool) {
+		sum.Sched, sum.Nontrivial, sum.States = nil, nil, nil
+		for k := range sched {
+			sum.Sched = append(sum.Sched, k)
+		}
+		for k := range nontriv {
+			sum.Nontrivial = append(sum.Nontrivial, k)
+		}
+		for k := range states {
+			sum.States = append(sum.States, k)
+		}
+		sum.WallS = time.Since(start).Seconds()
+		sum.Partial = !final
+		writeJSON(out, sum)
+	}
 	for i, n := from, uint64(0); n < maxRuns; i, n = i+stride, n+1 {
 		if n > 0 && time.Now().After(deadline) {
 			break
+		}
+		if time.Since(lastWrite) > 1500*time.Millisecond {
+			flush(false) // a later crash must not lose the coverage so far
+			lastWrite = time.Now()
 		}
 		if progress != "" {
 			os.WriteFile(progress, []byte(fmt.Sprintf(`{"property":%q,"seed":%d,"run":%d}`, prop, seed, i)), 0o644)
@@ -210,17 +231,7 @@ func modeExplore(t *testing.T) {
 			}
 		}
 	}
-	for k := range sched {
-		sum.Sched = append(sum.Sched, k)
-	}
-	for k := range nontriv {
-		sum.Nontrivial = append(sum.Nontrivial, k)
-	}
-	for k := range states {
-		sum.States = append(sum.States, k)
-	}
-	sum.WallS = time.Since(start).Seconds()
-	writeJSON(out, sum)
+	flush(true)
 }
 
 func loadReplay() *ReplayFile {
